@@ -223,8 +223,7 @@ func (multi *MultiEpoch) handleGetSignaturesForAddress(ctx context.Context, conn
 			err := func() error {
 				sig, err := transactionNode.Signature()
 				if err != nil {
-					klog.Errorf("failed to get signature: %v", err)
-					return nil
+					return fmt.Errorf("failed to get signature: %w", err)
 				}
 				response[ii] = map[string]any{
 					"signature": sig.String(),
